@@ -1,6 +1,6 @@
 (* C19 — merging of partial results: the histogram part (additions and duplicate repairs). *)
 From Coq Require Import List Bool Arith NArith ZArith Lia Permutation.
-From C19 Require Import Model ProofsMap.
+From C19 Require Import Model ProofsMap ProofsIds ProofsAgg.
 Import ListNotations.
 Open Scope N_scope.
 
@@ -60,3 +60,116 @@ Proof. reflexivity. Qed.
    histogram interval 10 *)
 Definition w_q1 : qpr := {| q_ids := [(1005, 1)]; q_hist := [(1000, 1)]; q_aggs := []; q_total := 0 |}.
 Definition w_q2 : qpr := {| q_ids := [(1005, 1); (1012, 2)]; q_hist := [(1000, 1); (1010, 1)]; q_aggs := []; q_total := 0 |}.
+
+(* ---------------------------------------------------------------- the whole merge *)
+Definition ids_of (qs : list qpr) : list id := flat_map q_ids qs.
+Definition hists_of (qs : list qpr) : list (N * N) := flat_map q_hist qs.
+(* the repairs of the repetitions of a list of IDs (none when no histogram is requested) *)
+Definition reps (hi : N) (rev : bool) (l : list id) : list (N * N) :=
+  if 0 <? hi then map (repair_event hi) (removed rev l) else [].
+
+Lemma reps_incremental : forall hi rev l1 l2,
+  Permutation (reps hi rev (kept rev l1 ++ l2) ++ reps hi rev l1) (reps hi rev (l1 ++ l2)).
+Proof.
+  intros. unfold reps. destruct (0 <? hi); [|constructor].
+  rewrite <- map_app. apply Permutation_map. apply removed_incremental.
+Qed.
+Lemma reps_perm : forall hi rev l1 l2, Permutation l1 l2 -> Permutation (reps hi rev l1) (reps hi rev l2).
+Proof.
+  intros. unfold reps. destruct (0 <? hi); [|constructor].
+  apply Permutation_map. now apply removed_same_multiset.
+Qed.
+
+Lemma merge_step : forall acc q hi rev,
+  let r := merge_qprs acc [q] None hi rev in
+  q_ids r = kept rev (q_ids acc ++ q_ids q)
+  /\ q_hist r = fold_left hist_event (q_hist q ++ reps hi rev (q_ids acc ++ q_ids q)) (q_hist acc)
+  /\ q_aggs r = merge_aggs (q_aggs acc) (q_aggs q).
+Proof.
+  intros acc q hi rev. unfold merge_qprs, finish, reps, kept, removed. simpl.
+  split; [reflexivity|]. split; [|reflexivity].
+  rewrite fold_left_app. destruct (0 <? hi); [|reflexivity].
+  now rewrite repairs_are_events.
+Qed.
+
+Lemma flat_map_perm : forall {A B} (f : A -> list B) l l', Permutation l l' ->
+  Permutation (flat_map f l) (flat_map f l').
+Proof.
+  intros A B f l l' P. induction P; simpl.
+  - constructor.
+  - now apply Permutation_app_head.
+  - rewrite !app_assoc. apply Permutation_app_tail. apply Permutation_app_comm.
+  - now rewrite IHP1.
+Qed.
+
+(* the state of FetchSearchResult after any number of files *)
+Lemma fetch_state : forall hi rev qs acc A H,
+  q_ids acc = kept rev A ->
+  q_hist acc = fold_left hist_event (H ++ reps hi rev A) [] ->
+  let r := fold_left (fun acc q => merge_qprs acc [q] None hi rev) qs acc in
+  q_ids r = kept rev (A ++ ids_of qs)
+  /\ q_hist r = fold_left hist_event ((H ++ hists_of qs) ++ reps hi rev (A ++ ids_of qs)) []
+  /\ q_aggs r = fold_left merge_aggs (map q_aggs qs) (q_aggs acc).
+Proof.
+  intros hi rev qs. induction qs as [|q qs IH]; intros acc A H HI HH; simpl.
+  - unfold ids_of, hists_of. simpl. rewrite !app_nil_r. auto.
+  - destruct (merge_step acc q hi rev) as [SI [SH SA]].
+    assert (HI' : q_ids (merge_qprs acc [q] None hi rev) = kept rev (A ++ q_ids q)).
+    { rewrite SI, HI. apply kept_incremental. }
+    assert (HH' : q_hist (merge_qprs acc [q] None hi rev)
+                  = fold_left hist_event ((H ++ q_hist q) ++ reps hi rev (A ++ q_ids q)) []).
+    { rewrite SH, HH, HI. rewrite <- fold_left_app.
+      apply hist_events_order_free.
+      rewrite <- !app_assoc. apply Permutation_app_head.
+      rewrite (Permutation_app_comm (reps hi rev A)). rewrite <- app_assoc.
+      apply Permutation_app_head. apply reps_incremental. }
+    destruct (IH _ _ _ HI' HH') as [RI [RH RA]].
+    unfold ids_of, hists_of in *. simpl. rewrite !app_assoc in *. rewrite <- !app_assoc in RH.
+    split; [exact RI|]. split; [|rewrite RA, SA; reflexivity].
+    rewrite RH. now rewrite <- !app_assoc.
+Qed.
+
+Lemma absorb_fold : forall qs d,
+  q_ids (fold_left absorb qs d) = q_ids d ++ ids_of qs
+  /\ q_hist (fold_left absorb qs d) = fold_left hist_event (hists_of qs) (q_hist d)
+  /\ q_aggs (fold_left absorb qs d) = fold_left merge_aggs (map q_aggs qs) (q_aggs d).
+Proof.
+  induction qs as [|q qs IH]; intro d; simpl.
+  - unfold ids_of. simpl. now rewrite app_nil_r.
+  - destruct (IH (absorb d q)) as [A [B C]]. unfold ids_of, hists_of in *. simpl in *.
+    rewrite A, B, C. rewrite app_assoc, fold_left_app. auto.
+Qed.
+
+(* thm:C19_equals_sync on lists of partial results: FetchSearchResult over the partial results in ANY
+   order gives the IDs (up to the limit), the histogram and the aggregation samples of SearchDocs *)
+Theorem equals_sync_lists : forall hi rev naggs limit qs qs', Permutation qs qs' ->
+  Forall (fun q => aggsok naggs (q_aggs q)) qs ->
+  let a := fetch hi rev qs' in
+  let s := sync_search naggs limit hi rev qs in
+  take limit (q_ids a) = q_ids s /\ q_hist a = q_hist s /\ aggs_equiv (q_aggs a) (q_aggs s).
+Proof.
+  intros hi rev naggs limit qs qs' P F a s. subst a s. unfold fetch, sync_search.
+  destruct (fetch_state hi rev qs' qpr_zero [] []) as [FI [FH FA]].
+  { reflexivity. }
+  { unfold reps, removed. simpl. now destruct (0 <? hi). }
+  rewrite FI, FH, FA. simpl app.
+  unfold merge_qprs, finish.
+  set (d0 := {| q_ids := []; q_hist := []; q_aggs := repeat agg_empty naggs; q_total := 0 |}).
+  destruct (absorb_fold qs d0) as [SI [SH SA]]. simpl in SI, SH, SA.
+  cbn [q_ids q_hist q_aggs]. rewrite SI, SH, SA.
+  assert (PI : Permutation (ids_of qs') (ids_of qs)) by (apply flat_map_perm; now apply Permutation_sym).
+  assert (K : kept rev (ids_of qs') = kept rev (ids_of qs)).
+  { apply kept_same_set. intro x. split; apply Permutation_in; [assumption|now apply Permutation_sym]. }
+  split; [|split].
+  - fold (kept rev (ids_of qs)). now rewrite K.
+  - transitivity (fold_left hist_event (hists_of qs ++ reps hi rev (ids_of qs)) []).
+    + apply hist_events_order_free. apply Permutation_app.
+      * apply flat_map_perm. now apply Permutation_sym.
+      * now apply reps_perm.
+    + rewrite fold_left_app. unfold reps, removed.
+      destruct (0 <? hi); [now rewrite repairs_are_events|reflexivity].
+  - apply aggs_order_free.
+    + now apply Permutation_map.
+    + apply Forall_forall. intros x Hx. apply in_map_iff in Hx. destruct Hx as [q [<- Hq]].
+      rewrite Forall_forall in F. now apply F.
+Qed.
